@@ -30,9 +30,18 @@ Definition trim (o : order) (b : list byte) : list byte :=
   match o with LE => strip_trailing_zeros b | BE => strip_leading_zeros b end.
 Definition bytes (o : order) (u : u128) : list byte := trim o (bytes16 o u).
 
-(* NewUint128([]byte, order): Upper: o.Uint64(in[8:]), Lower: o.Uint64(in[:8]) — as written,
-   for both orders *)
+(* NewUint128([]byte, order) after fixes/C13-newuint128-be.patch: the most significant half is
+   in[8:] for little endian and in[:8] for big endian *)
 Definition of_bytes (o : order) (b : list byte) : u128 :=
+  let b' := if (length b <? 16)%nat then pad o b else b in
+  match o with
+  | LE => mk128 (get_u64 LE (skipn 8 b')) (get_u64 LE b')
+  | BE => mk128 (get_u64 BE b') (get_u64 BE (skipn 8 b'))
+  end.
+
+(* the pre-fix constructor, kept for the refutation witness: Upper: o.Uint64(in[8:]),
+   Lower: o.Uint64(in[:8]) for BOTH orders, which exchanges the halves of a big-endian input *)
+Definition of_bytes_prefix (o : order) (b : list byte) : u128 :=
   let b' := if (length b <? 16)%nat then pad o b else b in
   mk128 (get_u64 o (skipn 8 b')) (get_u64 o b').
 
